@@ -207,17 +207,25 @@ rfbClientIteratorHead(rfbClientIteratorPtr i)
 rfbClientPtr
 rfbClientIteratorNext(rfbClientIteratorPtr i)
 {
+  rfbClientPtr prev;
+
   if (!i)
     return NULL;
-  if(i->next == 0) {
-    LOCK(rfbClientListMutex);
+
+  /*
+   * The step to the next client and the reference taken on it happen under
+   * rfbClientListMutex: rfbClientConnectionGone() unlinks a client under the
+   * same mutex and only once nobody references it anymore, so the client we
+   * step to cannot be freed before we hold our reference, and the 'next'
+   * pointer of the client we come from (still referenced, hence still linked)
+   * is valid.
+   */
+  LOCK(rfbClientListMutex);
+  prev = i->next;
+  if(prev == 0)
     i->next = i->screen->clientHead;
-    UNLOCK(rfbClientListMutex);
-  } else {
-    rfbClientPtr cl = i->next;
-    i->next = i->next->next;
-    rfbDecrClientRef(cl);
-  }
+  else
+    i->next = prev->next;
 
 #if defined(LIBVNCSERVER_HAVE_LIBPTHREAD) || defined(LIBVNCSERVER_HAVE_WIN32THREADS)
     if(!i->closedToo)
@@ -226,8 +234,12 @@ rfbClientIteratorNext(rfbClientIteratorPtr i)
     if(i->next)
       rfbIncrClientRef(i->next);
 #endif
+  UNLOCK(rfbClientListMutex);
 
-    return i->next;
+  if(prev)
+    rfbDecrClientRef(prev);
+
+  return i->next;
 }
 
 void
@@ -562,6 +574,26 @@ rfbClientConnectionGone(rfbClientPtr cl)
 
     LOCK(rfbClientListMutex);
 
+#if defined(LIBVNCSERVER_HAVE_LIBPTHREAD) || defined(LIBVNCSERVER_HAVE_WIN32THREADS)
+    if (cl->screen->backgroundLoop) {
+      /*
+       * Wait until no iterator references the client, and unlink it in the same
+       * critical section in which the count was seen to be zero: iterators take
+       * their references under rfbClientListMutex, so nobody can get hold of the
+       * client once it is unlinked, and a referenced client is always linked.
+       */
+      LOCK(cl->refCountMutex);
+      while(cl->refCount>0) {
+	UNLOCK(rfbClientListMutex);
+	WAIT(cl->deleteCond,cl->refCountMutex);
+	UNLOCK(cl->refCountMutex);
+	LOCK(rfbClientListMutex);
+	LOCK(cl->refCountMutex);
+      }
+      UNLOCK(cl->refCountMutex);
+    }
+#endif
+
     if (cl->prev)
         cl->prev->next = cl->next;
     else
@@ -570,19 +602,6 @@ rfbClientConnectionGone(rfbClientPtr cl)
         cl->next->prev = cl->prev;
 
     UNLOCK(rfbClientListMutex);
-
-#if defined(LIBVNCSERVER_HAVE_LIBPTHREAD) || defined(LIBVNCSERVER_HAVE_WIN32THREADS)
-    if (cl->screen->backgroundLoop) {
-      int i;
-      do {
-	LOCK(cl->refCountMutex);
-	i=cl->refCount;
-	if(i>0)
-	  WAIT(cl->deleteCond,cl->refCountMutex);
-	UNLOCK(cl->refCountMutex);
-      } while(i>0);
-    }
-#endif
 
     if(cl->sock != RFB_INVALID_SOCKET)
 	rfbCloseSocket(cl->sock);
